@@ -619,6 +619,8 @@ class World:
         """[f(x) for x in seq]  (one generator, no filter, f without side effects, possibly raising): the element
         expression is evaluated once for a generic position; the result is the array of its values, or the
         exception of some position"""
+        if len(e.generators) == 1 and e.generators[0].ifs and isinstance(e.generators[0].target, ast.Name):
+            return self.filtered_comprehension(eng, st, e)
         if len(e.generators) != 1 or e.generators[0].ifs or not isinstance(e.generators[0].target, ast.Name):
             raise EngineError('%s:%d: comprehension outside the supported shapes' % (eng.rel, e.lineno))
         g = e.generators[0]
@@ -709,6 +711,51 @@ class World:
                 sx.assume(0 <= k, k < n.n, *x.st.pc[base_len:])
                 if eng.feasible(sx):
                     out.append(Result(sx, exc=x.exc, flow='raise'))
+        return out
+
+    def filtered_comprehension(self, eng, st, e):
+        """[f(x) for x in seq if c(x)] over a sequence: the values at the positions where the condition holds, in
+        order (condition and element: side-effect free, non-raising, one outcome each)"""
+        g = e.generators[0]
+        out = []
+        for r in eng.ev(g.iter, st):
+            if r.exc is not None:
+                out.append(r)
+                continue
+            s0, seq = r.st, r.val
+            if not (seq.kind == 'ref' and isinstance(s0.node(seq), Arr)):
+                raise EngineError('%s:%d: filtered comprehension over %s' % (eng.rel, e.lineno, seq.kind))
+            n = s0.node(seq)
+            k = fresh('ck', I)
+            sk = s0.copy()
+            sk.env = dict(sk.env)
+            sk.env[g.target.id] = eng.wrap(n.elem, n.a[k])
+            sk.assume(0 <= k, k < n.n)
+            heap0 = dict(sk.heap)
+            cond = z3.BoolVal(True)
+            for c in g.ifs:
+                rs = eng.ev(c, sk)
+                if len(rs) != 1 or rs[0].exc is not None or any(rs[0].st.heap.get(h) is not v for h, v in heap0.items()):
+                    raise EngineError('%s:%d: comprehension condition must have one side-effect free outcome' % (eng.rel, e.lineno))
+                cond = z3.And(cond, eng.truth(rs[0].st, rs[0].val))
+            rs = eng.ev(e.elt, sk)
+            if len(rs) != 1 or rs[0].exc is not None or rs[0].val.kind not in ('int', 'real', 'bool', 'str') \
+                    or any(rs[0].st.heap.get(h) is not v for h, v in heap0.items()):
+                raise EngineError('%s:%d: comprehension element must have one scalar, side-effect free outcome' % (eng.rel, e.lineno))
+            val = rs[0].val
+            q = fresh('q', I)
+            sn = s0.copy()
+            vals = fresh('cvals', z3.ArraySort(I, eng.sort_of_kind(val.kind)))
+            mask = fresh('cmask', z3.ArraySort(I, B))
+            sn.assume(z3.ForAll([q], z3.Implies(z3.And(0 <= q, q < n.n),
+                                                z3.And(vals[q] == z3.substitute(val.term, (k, q)),
+                                                       mask[q] == z3.substitute(cond, (k, q)))),
+                                patterns=[vals[q], mask[q]]))
+            for r2 in eng.mask_read(sn, Arr(val.kind, vals, n.n, 'list'), Arr('bool', mask, n.n, 'list'), e.lineno):
+                if r2.exc is None:
+                    nd = r2.st.node(r2.val)
+                    r2.st.setnode(r2.val, Arr(nd.elem, nd.a, nd.n, 'list'))
+                out.append(r2)
         return out
 
     def yield_stmt(self, eng, st, s):
@@ -812,6 +859,12 @@ class World:
             if name == 'all':
                 return [Result(st, VBool(z3.ForAll([q], z3.Implies(rng, n.a[q]), patterns=[n.a[q]])))]
             return [Result(st, VBool(z3.Exists([q], z3.And(rng, n.a[q]), patterns=[n.a[q]])))]
+        if name == 'abs' and len(args) == 1 and is_num(args[0]):
+            x = args[0]
+            if x.kind == 'real':
+                return [Result(st, VReal(z3.If(x.term >= 0, x.term, -x.term)))]
+            t = to_int(x)
+            return [Result(st, VInt(z3.If(t >= 0, t, -t)))]
         if name == 'zip' and len(args) == 2:
             return [Result(st, VZip(args[0], args[1]))]
         if name == 'enumerate' and len(args) == 1:
